@@ -90,6 +90,27 @@ def carbon_case(pair):
     return "ok"
 
 
+CARBON_SIDES = ["C", "CC", "CC=O", "CC=O.CC=O", "CC.CC", "C.C", "CCO", "O", "CC=O.CC", "c1ccccc1", "C1=CC=CC=C1", "CCl"]
+
+
+def carbon_batch_case(pair):
+    """two reactions checked by one CheckCarbonBalance instance (shared cache) in the order
+    given: each label must be what the reaction gets on its own"""
+    from synrbl.SynProcessor import CheckCarbonBalance
+
+    out = []
+    rs = [a + ">>" + b for a, b in pair]
+    chk = CheckCarbonBalance([{"R": r} for r in rs], rsmi_col="R", symbol=">>", n_jobs=1)
+    got = [x["carbon_balance_check"] for x in chk.check_carbon_balance()]
+    for r, g in zip(rs, got):
+        a, b = r.split(">>")
+        na, nb = oracle.n_carbon(a), oracle.n_carbon(b)
+        want = "balanced" if na == nb else ("products" if na > nb else "reactants")
+        if g != want:
+            out.append({"rsmi": rs, "label": got, "which": r, "want": want})
+    return out or "ok"
+
+
 # ---- comparator: all pairs of small composition dicts in the decomposer's encoding
 
 
@@ -231,6 +252,17 @@ def run(tier, seed):
             res.add(Violation("carbon", r["rsmi"], r, None, ["carbon-label"],
                               "carbon label of {} is {}/{} want {}".format(
                                   r["rsmi"], r["label"], r["is_balanced"], r["want"])))
+    rx = list(itertools.product(CARBON_SIDES, repeat=2))
+    if tier != "thorough":
+        rx = [r for r in rx if r[0] in CARBON_SIDES[:8] and r[1] in CARBON_SIDES[:8]]
+    bpairs = list(itertools.product(rx, repeat=2))
+    r3b = pmap("checks.c07:carbon_batch_case", bpairs, chunk=400, seed=seed)
+    for r in r3b:
+        if isinstance(r, list):
+            for x in r[:1]:
+                res.add(Violation("carbon-batch", x["rsmi"], x, None, ["carbon-label", "batch"],
+                                  "carbon label of {} within the batch {} is {} want {}".format(
+                                      x["which"], x["rsmi"], x["label"], x["want"])))
     # comparator
     nd = len(small_dicts())
     ranges = [(i, min(nd, i + 5)) for i in range(0, nd, 5)]
@@ -243,12 +275,14 @@ def run(tier, seed):
                               ["comparator", b["why"]], "compare {} vs {}: {}".format(
                                   b["r"], b["p"], b["why"])))
     res.coverage = {
-        "evaluations": len(r1) + len(r2) + len(r3) + n_pairs,
-        "distinct_nontrivial": n_valid + len(mixes) + len(pairs) + n_pairs,
+        "evaluations": len(r1) + len(r2) + len(r3) + len(r3b) + n_pairs,
+        "distinct_nontrivial": n_valid + len(mixes) + len(pairs) + len(bpairs) + n_pairs,
+        "carbon_batches": len(bpairs),
         "rule": "distinct SMILES that RDKit parses (corpus molecules, every element Z=1..118 "
                 "in 13 forms, generated universes, a size ladder of 9 repeat units x 23 lengths up to 400) compared with the independent composition; "
                 "all ordered tuples of a {}-molecule alphabet up to length {} for additivity; "
-                "all ordered pairs of sides for the carbon label; all {}x{} pairs of "
+                "all ordered pairs of sides for the carbon label, and all ordered pairs of reactions over a side "
+                "alphabet with repeated molecules checked by one checker instance; all {}x{} pairs of "
                 "composition dicts over C,H,O in 0..2 and Q in -2..2 for the comparator. "
                 "Non-trivial = parses (every case exercises the accounting).".format(
                     len(MIX_ALPHABET), k, nd, nd),
@@ -280,6 +314,10 @@ def replay(v):
         r = carbon_case((a, b))
         if isinstance(r, dict):
             out.append(Violation(v.sub, v.case, r, None, v.key, "carbon label"))
+    elif v.sub == "carbon-batch":
+        r = carbon_batch_case([tuple(x.split(">>")) for x in v.case])
+        if isinstance(r, list):
+            out.append(Violation(v.sub, v.case, r[0], None, v.key, "carbon label in batch"))
     elif v.sub == "comparator":
         from synrbl.SynProcessor import RSMIComparator
 
